@@ -8,7 +8,7 @@
 EXTENDS Workbook, Json
 CONSTANTS Kind, Thorough
 VARIABLE st
-Kinds == <<"int", "float", "bool", "one", "text", "datetime", "negint", "zero", "array", "date", "boolf", "bigint", "eqtext">>
+Kinds == <<"int", "float", "bool", "one", "text", "datetime", "negint", "zero", "array", "date", "boolf", "bigint", "eqtext", "calltext">>
 Corner == {<<c, r>> : c \in 1..3, r \in 1..3}
 Beacons == {<<4, 7>>, <<27, 1>>, <<1, 100>>, <<16384, 3>>}
 \* cells of a sheet from a set of coordinates; the kind depends on the position and a rotation
@@ -49,6 +49,11 @@ Frag == << <<101, 118, 97, 108, 40, 49, 41>>,                                   
            <<61, 76, 79, 71, 49, 48, 40, 49, 48, 48, 41>>,          \* =LOG10(100)   an Excel function whose name ends in a digit
            <<61, 83, 85, 77, 88, 50, 77, 89, 50, 40, 65, 49, 58, 65, 50, 44, 66, 49, 58, 66, 50, 41>>,   \* =SUMX2MY2(A1:A2,B1:B2)
            <<103, 101, 116, 88, 40, 49, 41>>,                      \* getX(1)   not an upper-case function: the name is getX
+           <<111, 115, 46, 115, 121, 115, 116, 101, 109, 40, 34, 101, 99, 104, 111, 32, 37, 80, 65, 84, 72, 37, 34, 41>>,      \* os.system("echo %PATH%")   characters that mean something to a format string
+           <<112, 114, 105, 110, 116, 40, 34, 37, 115, 34, 32, 37, 32, 110, 41>>,      \* print("%s" % n)   characters that mean something to a format string
+           <<61, 101, 120, 101, 99, 40, 53, 48, 37, 41>>,      \* =exec(50%)   characters that mean something to a format string
+           <<102, 40, 34, 123, 48, 125, 123, 120, 125, 34, 41>>,      \* f("{0}{x}")   characters that mean something to a format string
+           <<103, 40, 34, 92, 110, 123, 34, 41>>,      \* g("\n{")   characters that mean something to a format string
            <<61, 67, 97, 108, 99, 50, 40, 49, 41>> >>                 \* =Calc2(1)
 GCols == 1..4
 GRows == 1..5
